@@ -16,6 +16,7 @@ Nothing from `traits` is imported at module level.
 import collections
 import gc
 import weakref
+import zlib
 
 from .seqlib import exc_name
 
@@ -75,8 +76,24 @@ def node_class():
         def __hash__(self):
             return _EQ.get(id(self), 7)
 
-    _NODE.append(Node)
+    # Nothing in the statements depends on an object's truth value: a share of the cases
+    # (crc32 of the case line) runs with pool objects that are alive but FALSY.
+    class FalsyNode(Node):
+        def __bool__(self):
+            return False
+
+    class SizedNode(Node):
+        # container-like: falsy while `kids` is empty or not yet materialised
+        def __len__(self):
+            return len(self.__dict__.get("kids") or ())
+
+    _NODE.extend([Node, FalsyNode, SizedNode])
     return Node
+
+
+def node_variant(case):
+    """0: plain, 1: always falsy (__bool__), 2: falsy while empty (__len__)."""
+    return {0: 1, 1: 2}.get(zlib.crc32(case.encode()) % 5, 0)
 
 
 # --------------------------------------------------------------------------- expressions
@@ -196,6 +213,10 @@ def node_mkind(node):
 
 class Recorder:
     """Owner of a bound-method handler."""
+    falsy = False
+
+    def __bool__(self):
+        return not self.falsy
 
     def __init__(self, hid, sink):
         self.hid = hid
@@ -223,11 +244,13 @@ def base(hid):
 
 
 class World:
-    def __init__(self, n, dflts, classes=None, fresh_class=False):
+    def __init__(self, n, dflts, classes=None, fresh_class=False, variant=0):
         _INDEX.clear()
         _DEFAULT.clear()
         _EQ.clear()
-        Node = node_class()
+        node_class()
+        Node = _NODE[variant]
+        self.variant = variant
         if fresh_class:
             # an ad-hoc attribute defines a trait on the concrete CLASS: one class per case
             Node = type("NodeX", (Node,), {})
@@ -280,6 +303,7 @@ class World:
         hid = base(hid)
         if hid not in self.recorders:
             self.recorders[hid] = Recorder(hid, self.sink)
+            self.recorders[hid].falsy = self.variant == 1      # the handler's owner is falsy too
         return self.recorders[hid].on_event
 
     # ----- canonical output
@@ -544,7 +568,8 @@ class Runner:
         ents = [x.strip() for x in dflts.split(",")]
         classes = [int(e.split("~")[1]) if "~" in e else i for i, e in enumerate(ents)]
         self.w = World(int(n), [parse_ref(e.split("~")[0]) for e in ents], classes,
-                       fresh_class=any(o.strip().startswith("adhoc ") for o in ops.split(";")))
+                       fresh_class=any(o.strip().startswith("adhoc ") for o in ops.split(";")),
+                       variant=node_variant(case.lstrip("#")))
         self.known_cause = None      # exact signature of a recorded finding this history ran into
         self.eq_case = len(set(classes)) < len(classes)
         self.ops = [o.strip() for o in ops.split(";") if o.strip()]
@@ -558,6 +583,8 @@ class Runner:
         self.shadow_default = False  # an unhooked default was "removed" on first assignment
         if self.eq_case:
             self.tags.add("eq-classes")
+        if self.w.variant:
+            self.tags.add("falsy-objects:" + ("bool" if self.w.variant == 1 else "len"))
 
     # ------------------------------------------------------------------ ops
     @staticmethod
